@@ -33,6 +33,15 @@ def gen_case(rng, tier):
     doc = gen.place_flags(rng, doc, p=rng.choice([0.2, 0.35, 0.5]), notnew=True)
     if rng.random() < 0.7:
         doc = gen.decorate_specials(rng, doc, gen.BUILDABLE_KINDS if buildable else gen.STATIC_KINDS, p=rng.choice([0.15, 0.3]))
+    if rng.random() < 0.15:
+        # an explicit "this is safe" on some node (it matters - and has to be written - when the source itself is not)
+        cands = [n for _, n in emit.walk(doc) if n['t'] in ('sc', 'map', 'seq') and not n.get('unsafe') and not n.get('vdel')]
+        if cands:
+            n = rng.choice(cands)
+            n['md'] = dict(n.get('md') or {}, safe=True)
+            if rng.random() < 0.5:
+                n['md']['note'] = 1
+            n.setdefault('mdsyn', rng.choice(['hex', 'brace']))
     skeleton = emit.strip_flags(c19._despecial(doc))
     ctxs = []
     for _ in range(3):
@@ -199,7 +208,7 @@ def explain(diffs):
             default_del = a['kind'] in ('ConfigList', 'CallNode', 'BindNode', 'AppendNode', 'ExtendNode', 'PathNode', 'ConfigTuple')
             # explicit flags the dumper left out (implied by the parent, or equal to the type default)
             x_ok = all(a.get(k) is not None and b.get(k) is None for k in keys & {'xdel', 'xnew'}) and \
-                (('xsafe' not in keys) or (a.get('xsafe') is False and b.get('xsafe') is None))
+                (('xsafe' not in keys) or (a.get('xsafe') in (False, True) and b.get('xsafe') is None))     # (the effective 'safe' is not among the keys allowed to differ)
             below = any(path[:len(r)] == r for r in elided_roots)
             eff_ok = True
             if 'del' in keys:      # the effective flag changes only through inheritance from an elided ancestor, or because the node's own default-valued flag went missing
